@@ -32,6 +32,15 @@ CLAIMED = {
          "conditional-GET/date rules checked by correspondence + client-side parser, not yet by theorem",
     technique="Coq proof over executable model + differential correspondence (extracted OCaml vs C harness)",
     design="5/C15"),
+ "C20": dict(
+    text="Coq theorems over an executable model of the rule/template machinery (keyvalue.c subst/subst_ext/process, burl_append and its encoders, "
+         "base64url codec, mod_rewrite once/repeat loop): modifier keywords set the flag they name (regenerated from source), tolower/toupper laws, "
+         "esc and base64url round-trips for all byte strings, first-match-wins, literal templates verbatim, repeat bounded by the loop limit, "
+         "once applies once; tied by differential correspondence with real PCRE2 as match oracle and a reference interpreter as monitor",
+    note="trusted: Coq kernel, c2v.py, extraction, harness glue, python reference interpreter (monitor); PCRE2 is an oracle (match outcomes are "
+         "inputs of the model); mod_redirect/mod_alias/vhost composition not yet modelled (mod_alias prefix/docroot join is covered under C02)",
+    technique="Coq proof over executable model + differential correspondence (extracted OCaml vs C harness with real PCRE2)",
+    design="5/C20"),
 }
 NOT_YET = "no check built yet in this round (planned, see DESIGN.md section 5)"
 
